@@ -68,6 +68,15 @@ def hexnamed(i, n):
 hexnamed.__name__ = hexnamed.__qualname__ = "abcdef0123456789abcdef0123456789_fn"
 
 
+def hexexact(i, n):
+    CALLS.append(("hexexact", i, n))
+    return b"e" * n
+
+
+# ... and one whose directory name IS 32 hex characters: the directory holds func_code.py and the entries, it is not an entry
+hexexact.__name__ = hexexact.__qualname__ = "0123456789abcdef0123456789abcdef"
+
+
 def cases(tier, seed):
     n = 2400 if tier == "quick" else 40000
     for i in range(n):
@@ -81,7 +90,7 @@ HEX = re.compile("[a-f0-9]{32}$")
 def scan(d):
     out = {}
     for dp, _, fns in os.walk(d):
-        if HEX.match(os.path.basename(dp)):
+        if HEX.match(os.path.basename(dp)) and "func_code.py" not in fns:   # an entry, not the directory of a function named like one
             op = os.path.join(dp, "output.pkl")
             at = os.stat(op).st_atime if os.path.exists(op) else os.stat(dp).st_atime
             out[dp] = (sum(os.path.getsize(os.path.join(dp, x)) for x in fns), at)
@@ -125,7 +134,7 @@ def run_case(case, ctx):
         with warnings.catch_warnings():
             warnings.simplefilter("ignore")
             mem = Memory(d, verbose=0, compress=rng.choice([False, False, True]))
-            fs = {"blob": mem.cache(blob), "blob2": mem.cache(blob2), "blob3": mem.cache(blob3), "nested": mem.cache(nested), "hexnamed": mem.cache(hexnamed)}
+            fs = {"blob": mem.cache(blob), "blob2": mem.cache(blob2), "blob3": mem.cache(blob3), "nested": mem.cache(nested), "hexnamed": mem.cache(hexnamed), "hexexact": mem.cache(hexexact)}
         if case["i"] % 3 == 0:
             # the enclosing function records its code first: its first call on a directory that already holds the
             # nested function's entries would (legitimately) wipe that directory
@@ -136,10 +145,15 @@ def run_case(case, ctx):
         del CALLS[:]
         keys = []
         for i in range(n):
-            fn = rng.choice((["blob", "blob", "blob2"] if case["i"] % 5 else ["blob", "hexnamed", "hexnamed"]) if case["i"] % 3 else ["blob", "blob3", "nested", "nested"])
+            fn = rng.choice((["blob", "blob", "blob2"] if case["i"] % 5 else ["blob", "hexnamed", "hexexact", "hexexact"]) if case["i"] % 3 else ["blob", "blob3", "nested", "nested"])
             fs[fn](i, sizes[i])
             keys.append((fn, i, sizes[i]))
         assert len(CALLS) == n
+        # wrapping a function creates its (empty) directory: the one named like an entry id would count as a zero-size entry
+        try:
+            os.rmdir(os.path.join(mem.store_backend.location, fs["hexexact"].func_id))
+        except OSError:
+            pass
         # map entry dir -> key by scanning after each? cheaper: ask joblib for the id
         dirs = {}
         for fn, i, sz in keys:
@@ -284,7 +298,7 @@ def run_case(case, ctx):
             except Exception as e:  # noqa
                 ctx.violation("entry-unusable-after-reduce", f"{'survivor' if p in S else 'evicted'} entry raises {type(e).__name__}: {e}", desc)
                 return
-            want = {"blob": b"x", "blob2": b"y", "blob3": b"z", "nested": b"n", "hexnamed": b"h"}[fn] * sz
+            want = {"blob": b"x", "blob2": b"y", "blob3": b"z", "nested": b"n", "hexnamed": b"h", "hexexact": b"e"}[fn] * sz
             if v != want:
                 ctx.violation("wrong-value-after-reduce", f"entry {fn}({i},{sz}) returns {v[:20]!r}[{len(v)}]", desc)
                 return
